@@ -298,6 +298,10 @@ def main(argv: List[str]) -> int:
         os.makedirs(os.path.join(VERIF, "evidence"), exist_ok=True)
         with open(os.path.join(VERIF, "evidence", f"{pid}.json"), "w") as fh:
             json.dump(ev, fh, indent=1, default=repr)
+        if a.tier == "thorough":  # kept beside the per-change evidence, which the next quick run overwrites
+            os.makedirs(os.path.join(VERIF, "evidence_thorough"), exist_ok=True)
+            with open(os.path.join(VERIF, "evidence_thorough", f"{pid}.json"), "w") as fh:
+                json.dump(ev, fh, indent=1, default=repr)
 
     if violations:
         return 1
